@@ -37,7 +37,7 @@ ASSUMPTIONS = ["reference model: reads are no-ops, selections are snapshots, a[.
 REQUIRED_FEATURES = ["pending_selection", "write_after_read", "alias_derivation",
                      "three_variables", "selection_of_selection", "write_through_alias", "write_through_read_result", "write_to_callers_buffer"]
 BOUNDS = {"quick": "2 base arrays, 3 variables, every history of depth <= 4 over 9 selectors x 6 writes x 26 reads (all variables / sources), "
-                   "plus depth 5 for histories on the first base whose first two steps are derivations",
+                   "plus depth 5 for histories on the first base whose first two steps are derivations; steps V (write through the array a read returned, 7 kinds) and, on a base built over a caller's strided buffer, X (the caller overwrites it); invariant: numpy print / error configuration unchanged after every step",
           "thorough": "3 base arrays, depth <= 5 complete, depth 6 after two derivations"}
 
 Q_BASES = [[2, 0, 3], [1, 2, 2]]
